@@ -46,6 +46,11 @@ RULE = (
     "X10: Configuration(color_policy, custom_fg_color, background_policy, custom_bg_color) for every colour policy x background policy "
     "on documents with many primitives of the same RGB and different alpha in one rendering vs. drawLayout + backendStage (colour "
     "policy with the cache of get_backend_properties) under the foreground colour of layoutFg. "
+    "X11: the references at which Insert.transform raises (Forest.failing of the Lean block tree, with the reason) vs. an independent "
+    "floating point walk (first non-orthogonal reference on every INSERT path). X12: stroke-width of the JSON backend under "
+    "Configuration(min_lineweight, lineweight_scaling) vs. backendStrokeWidth (|d| <= 0.005: the output is rounded to 2 decimals). "
+    "X13: HATCH (solid / pattern / too dense pattern / gradient, 0-3 loops, nested or not) x every HatchPolicy: nothing / hatch lines / "
+    "one path per loop / one filled-paths call vs. hatchDecision. "
     "X7: draw_layout after RenderContext.set_layer_properties_override(f) for f in {all layers on, all layers off, one colour / "
     "linetype / lineweight} vs. drawLayout on Ctx.overrideLayers. "
     "non-trivial = the layout has a visible INSERT (X1-X4), a non-empty frozen list (X5), more than one viewport (X6); distinct by "
@@ -78,11 +83,12 @@ ASSUMPTIONS = [
     "Configuration(line_policy=SOLID, text_policy=IGNORE) for the correspondence streams (linetype pattern rendering and text pipelines are outside the model)",
 ]
 OPEN = [
-    "draw_eq_spec holds for every document whose block tree passes the decidable check Forest.lawful (no reference is sheared); proved to pass outright: quarter-turn documents and uniformly scaled documents with arbitrary rational rotations, MINSERT included. For the remaining documents (a rotated reference below a non-uniformly scaled one) the code takes the explode fall-back, which the model follows (transformOne/explode) and which does NOT draw what the document defines: finding F20 stays open (not fixed: needs a new protocol between explode.py and frontend.py)",
+    "draw_eq_spec holds for every document whose block tree has no reference at which Insert.transform raises (Forest.failing = [], theorem lawful_iff_no_reference_raises; final round: draw_differs_only_with_raising_reference and f20_confined_to_entities_with_raising_reference state exactly where a drawing can leave the specification); proved to pass outright: quarter-turn documents and uniformly scaled documents with arbitrary rational rotations, MINSERT included. For the remaining documents (a rotated reference below a non-uniformly scaled one) the code takes the explode fall-back, which the model follows (transformOne/explode) and which does NOT draw what the document defines: finding F20 stays open (not fixed: needs a new protocol between explode.py and frontend.py)",
     "rotation angles whose cosine/sine are irrational (30 degrees ...) are oracle-only (O1, tolerance 1e-9)",
     "linetype pattern rendering, text/hatch/viewport content pipelines (draw_viewport itself), clipping (XCLIP), linetype overrides of plot style tables, the JSON backend, circle shapes and dashed linetypes: oracle-only or not modelled",
     "3DFACE (visibility rule modelled: resolveVisibleFace; drawing of the edges not), SPLINE, HATCH, MESH, POLYLINE variants, XLINE/RAY: only in oracle O6 (hidden x type x route); proxy graphics, DXFGraphicProxy wrapping and the VIEWPORT deferral of _draw_entities are in the AST-shape tie only",
-    "lineweight policy / min_lineweight / lineweight_scaling are applied by the individual backends, not by the pipeline: JSON backend oracle O2 only (default configuration)",
+    "min_lineweight / lineweight_scaling: modelled for the vector backends' rule (backendStrokeWidth, stream X12 on the JSON backend); LineweightPolicy.RELATIVE* of the raster/SVG backends not modelled",
+    "HATCH: the decision logic is modelled (hatchDecision, X13); hatch line geometry, island detection, MPOLYGON and text boxes are not; TEXT/ATTRIB: only the resolved properties and the insert point of ATTRIB/ATTDEF are compared, not rotation/height/what reaches draw_text",
 ]
 
 GRID = 4096
@@ -330,6 +336,15 @@ def render_shape(frontend_src, properties_src, extra=None):
                 return ast.unparse(n.value.args[0])
         return ""
 
+    dh = _find_func(ft, "draw_hatch_entity", "UniversalFrontend")
+    hatch_chain, hnode = [], next(n for n in dh.body if isinstance(n, ast.If) and "hatch_policy" in ast.unparse(n.test))
+    while True:
+        hatch_chain.append(ast.unparse(hnode.test) + " => " + "; ".join(ast.unparse(x) for x in hnode.body))
+        if len(hnode.orelse) == 1 and isinstance(hnode.orelse[0], ast.If):
+            hnode = hnode.orelse[0]
+        else:
+            break
+    hatch_tests = [ast.unparse(n.test) for n in dh.body if isinstance(n, ast.If)]
     cb = _find_func(ft, "draw_entities_callback", "UniversalFrontend")
     cb_body = [n for n in cb.body if _stmt_sig(n) != "doc"]
     cb_try = next((n for n in cb_body if isinstance(n, ast.Try)), None)
@@ -376,6 +391,9 @@ def loopInvisible : List String := {sigs(loop_for.body[-1].orelse) if isinstance
 def layoutBody : List String := {sigs(dl_body)}
 def layoutOrdered : String := {lean_str(first_arg(dl_if.body) if dl_if else "")}
 def layoutPlain : String := {lean_str(first_arg(dl_if.orelse) if dl_if else "")}
+/-- `draw_hatch_entity`: the hatch policy chain as `test => body`, and the tests of all top level `if` statements in order -/
+def hatchPolicyChain : List String := {"[" + ", ".join(lean_str(x) for x in hatch_chain) + "]"}
+def hatchTests : List String := {"[" + ", ".join(lean_str(x) for x in hatch_tests) + "]"}
 /-- `draw_entities_callback` (used by `pipeline.draw_viewport`): statements, body of its `try`, its `finally` -/
 def callbackBody : List String := {sigs(cb_body)}
 def callbackTry : List String := {sigs(cb_try.body) if cb_try else "[]"}
@@ -1497,6 +1515,8 @@ def correspond(ctx):
     correspond_viewport_content(ctx)
     correspond_redraw_order(ctx)
     correspond_policies(ctx)
+    correspond_final_round(ctx)
+    correspond_hatch(ctx)
 
 
 def canon_float(obs):
@@ -1728,6 +1748,120 @@ def correspond_policies(ctx):
                 ctx.hist("X10 colour and background policy", "same RGB with different alpha in one rendering")
             cases.append((req, canon(obs), same_rgb))
     ctx.correspond("X10 colour and background policy", "C18", cases)
+
+
+def correspond_final_round(ctx):
+    """X11: the references at which Insert.transform raises (model: Forest.failing of the block tree; theorem
+    draw_differs_only_with_raising_reference) vs. an independent floating point walk: on every INSERT path the FIRST reference whose
+    axes are not orthogonal under the product of the matrices above it. X12: stroke-width of the JSON backend under
+    Configuration(min_lineweight, lineweight_scaling) vs. backendStrokeWidth (before the rounding to 2 decimals: |d| <= 0.005)"""
+    import random
+    cases = []
+    for mode, n in (("rational-any", ctx.n(120, 1500)), ("rational", ctx.n(30, 300)), ("quarter", ctx.n(30, 300))):
+        for i in range(n):
+            key = f"{ctx.seed}/{ctx.pid}/failing/{mode}/{i}"
+            desc = gen_doc(random.Random(key), mode)
+            doc = build(desc)
+            for lay in ("msp", "psp"):
+                try:
+                    paths = walk_paths(desc, lay)
+                except (RecursionError, KeyError):
+                    continue
+                first = set()
+                for p in paths:
+                    # the reference itself is the first sheared one of its path: no proper prefix is sheared
+                    if shear_fallback(p) and not any(shear_fallback(p[:k]) for k in range(2, len(p))):
+                        first.add(p[-1]["name"].lower() + ":fallback")
+                ctx.hist("X11 raising references", "some" if first else "none")
+                cases.append(("failing|" + encode(desc, doc, lay, False), ";".join(sorted(first)), bool(first)))
+    ctx.correspond("X11 raising references", "C18", cases)
+    # X12
+    import ezdxf
+    from ezdxf.addons.drawing import Frontend, RenderContext
+    from ezdxf.addons.drawing.config import Configuration
+    from ezdxf.addons.drawing.json import CustomJSONBackend
+    rng = ctx.rng("stroke")
+    reqs, reals = [], []
+    for i in range(ctx.n(40, 300)):
+        lw = rng.choice([0, 5, 13, 25, 50, 100, 211])
+        cmin = rng.choice([None, 0, 1, 2, 3, 6, 12, 0.5])
+        sc = rng.choice([0.0, 0.5, 1.0, 2.0, 3.0])
+        doc = ezdxf.new("R2010")
+        doc.modelspace().add_line((0, 0), (1, 0), dxfattribs={"lineweight": lw})
+        be = CustomJSONBackend()
+        Frontend(RenderContext(doc), be, config=Configuration(min_lineweight=cmin, lineweight_scaling=sc)).draw_layout(doc.modelspace())
+        real = be.get_json_data()[0]["properties"]["stroke-width"]
+        resolved = max(Fr(1, 100), Fr(lw, 100))  # resolve_lineweight: never below 0.01 mm
+        reqs.append(f"stroke|{'-' if cmin is None else _rat(Fr(cmin).limit_denominator(1000))}|{_rat(Fr(sc).limit_denominator(1000))}|{_rat(resolved)}")
+        reals.append(real)
+    outs = ctx.driver("C18", reqs)
+    for req, real, model in zip(reqs, reals, outs):
+        ctx.count("X12 JSON stroke width", req, True, sample={"request": req, "impl": str(real), "model": model})
+        ctx.cov["disagreements_checked"] += 1
+        if abs(float(Fr(model)) - real) > 0.005 + 1e-9:
+            ctx.disagree("X12 JSON stroke width", req, str(real), model)
+
+
+def correspond_hatch(ctx):
+    """X13: HATCH (solid / pattern / too dense pattern / gradient, 0-3 boundary loops, nested in a block reference or not) x every
+    HatchPolicy: what Frontend.draw_layout records (nothing / SolidLinesRecord / one PathRecord per loop / one FilledPathsRecord with
+    all loops) vs. hatchDecision"""
+    import ezdxf
+    from ezdxf.addons.drawing import Frontend, RenderContext
+    from ezdxf.addons.drawing.config import Configuration, HatchPolicy
+    from ezdxf.addons.drawing.recorder import Recorder, SolidLinesRecord, PathRecord, FilledPathsRecord
+    from ezdxf.render import hatching
+
+    rng = ctx.rng("hatch")
+    cases = []
+    for i in range(ctx.n(60, 400)):
+        kind = rng.choice(["solid", "pattern", "dense", "gradient"])
+        loops = rng.choice([0, 1, 1, 2, 3])
+        nested = rng.random() < 0.4
+        doc = ezdxf.new("R2010", setup=True)
+        lay = doc.blocks.new("H") if nested else doc.modelspace()
+        h = lay.add_hatch(color=rng.choice([1, 2, 256]))
+        for k in range(loops):
+            h.paths.add_polyline_path([(k * 10, 0), (k * 10 + 4, 0), (k * 10 + 4, 4), (k * 10, 4)], is_closed=True)
+        if kind == "pattern":
+            h.set_pattern_fill("ANSI31", scale=rng.choice([0.5, 1.0]))
+        elif kind == "dense":
+            h.set_pattern_fill("ANSI31", scale=0.00001)
+        elif kind == "gradient":
+            h.set_gradient((10, 10, 10), (200, 200, 200))
+        if nested:
+            doc.modelspace().add_blockref("H", (1, 1), dxfattribs={"xscale": 2, "yscale": 2, "rotation": 90})
+        pol = rng.choice(list(HatchPolicy))
+        rec = Recorder()
+        rctx = RenderContext(doc)
+        Frontend(rctx, rec, config=Configuration(hatch_policy=pol)).draw_layout(doc.modelspace())
+        recs = [r for r, _ in rec.player().recordings()]
+        if not recs:
+            got = "nothing"
+        elif all(isinstance(r, SolidLinesRecord) for r in recs):
+            got = "lines"
+        elif all(isinstance(r, PathRecord) for r in recs):
+            got = f"outline {len(recs)}"
+        elif len(recs) == 1 and isinstance(recs[0], FilledPathsRecord):
+            got = f"filled {len(recs[0].paths)}"
+        else:
+            got = "other " + ",".join(type(r).__name__ for r in recs)
+        filling = rctx.resolve_all(h).filling
+        dense = False
+        if filling is not None and filling.type == 1:
+            # is the pattern too dense for this boundary? (the exception the front end catches)
+            try:
+                baseline = hatching.pattern_baselines(h)
+                for _ in hatching.hatch_entity(h):
+                    pass
+            except hatching.DenseHatchingLinesError:
+                dense = True
+            except Exception:  # noqa
+                dense = kind == "dense"
+        req = f"hatch|{int(filling is not None)}|{pol.name}|{filling.type if filling is not None else 0}|{int(dense)}|{loops}"
+        ctx.hist("X13 hatch policy", f"{kind} / {pol.name}")
+        cases.append((req, got, True))
+    ctx.correspond("X13 hatch policy", "C18", cases)
 
 
 def correspond_viewports(ctx):
